@@ -110,6 +110,22 @@ func (p *specParser) parse(src string) (SpecExpr, error) {
 			return sq, nil
 		}
 	}
+	// a quantifier that follows an operator extends to the end of the expression
+	for _, q := range []string{"forall ", "exists "} {
+		if head, tail, ok := splitTop(s, q, false); ok && strings.TrimSpace(head) != "" {
+			h := strings.TrimSpace(head)
+			if strings.HasSuffix(h, "&&") || strings.HasSuffix(h, "||") || strings.HasSuffix(h, "!") || strings.HasSuffix(h, "==>") {
+				sub, err := p.parse(q + tail)
+				if err != nil {
+					return nil, err
+				}
+				p.n++
+				name := fmt.Sprintf("SPECSUB_%d", p.n)
+				p.subs[name] = sub
+				return p.parse(head + " " + name)
+			}
+		}
+	}
 	if a, b, ok := splitTop(s, "<==>", false); ok {
 		ea, err := p.parse(a)
 		if err != nil {
@@ -133,7 +149,7 @@ func (p *specParser) parse(src string) (SpecExpr, error) {
 		return &SImp{ea, eb}, nil
 	}
 	// Replace parenthesised groups containing spec-only syntax by placeholders.
-	subs := map[string]SpecExpr{}
+	subs := p.subs
 	var out strings.Builder
 	for i := 0; i < len(s); i++ {
 		c := s[i]
